@@ -15,6 +15,13 @@
  *                  run of m objects of that size.
  *   MO_SKIP=k     the first k requests of that size are served normally (shifts the run
  *                  boundaries, so every window of m consecutive objects is covered)
+ *   MO_FILL=hh|addr  what freshly malloc'ed memory CONTAINS: every block returned by malloc,
+ *                  memalign & co. and the grown tail of a realloc is filled with byte 0xhh, or
+ *                  with a pattern derived from its address (calloc still returns zeros).
+ *                  Without MO_FILL fresh blocks are zero pages.
+ *   MO_RECYCLE=1   free() keeps blocks on a LIFO list per size class (16-byte classes up to
+ *                  4 kB) and malloc of that class hands the most recently freed one back
+ *                  WITHOUT clearing it, so the bytes of a dead object show through
  *   MO_LOG=file    at exit: "allocs <n> sized <k> bytes <b>"
  *
  * Containers ordered by pointer value (std::set<T*>, std::map<T*,..>) and sorts whose ties are
@@ -42,7 +49,12 @@ static int mo_m, perm[MAXM];
 static long mo_skip;
 static char *run_base;
 static int run_pos;
-static size_t n_alloc, n_sized, n_bytes;
+static size_t n_alloc, n_sized, n_bytes, n_recycled;
+static int fill_mode;            /* 0 none, 1 byte, 2 address pattern */
+static unsigned char fill_byte;
+static int recycle;
+#define NCLASS 257
+static char *freelist[NCLASS];   /* next pointer lives in the header, payload stays untouched */
 static volatile int lock_;
 
 static void lock(void) { while (__sync_lock_test_and_set(&lock_, 1)) { } }
@@ -55,9 +67,9 @@ __attribute__((destructor)) static void at_exit_log(void) {
   if (!p || !*p) return;
   char buf[160];
   int n = 0;
-  const char *lab[3] = {"allocs ", " sized ", " bytes "};
-  size_t val[3] = {n_alloc, n_sized, n_bytes};
-  for (int i = 0; i < 3; i++) {
+  const char *lab[4] = {"allocs ", " sized ", " bytes ", " recycled "};
+  size_t val[4] = {n_alloc, n_sized, n_bytes, n_recycled};
+  for (int i = 0; i < 4; i++) {
     for (const char *s = lab[i]; *s; s++) buf[n++] = *s;
     char d[24]; int k = 0; size_t v = val[i];
     do { d[k++] = '0' + v % 10; v /= 10; } while (v);
@@ -77,6 +89,13 @@ static void init(void) {
   hi = base + ARENA;
   const char *m = getenv("MO_MODE");
   desc = m && strcmp(m, "desc") == 0;
+  const char *f = getenv("MO_FILL");
+  if (f && *f) {
+    if (strcmp(f, "addr") == 0) fill_mode = 2;
+    else { fill_mode = 1; fill_byte = (unsigned char)strtoul(f, NULL, 16); }
+  }
+  const char *rc = getenv("MO_RECYCLE");
+  recycle = rc && *rc == '1';
   const char *s = getenv("MO_SIZE");
   const char *mm = getenv("MO_M");
   const char *pp = getenv("MO_PERM");
@@ -112,13 +131,34 @@ static void *take(size_t size, size_t align) {
   return p;
 }
 
+static void fill(void *p, size_t off, size_t end) {
+  unsigned char *b = p;
+  if (fill_mode == 1) memset(b + off, fill_byte, end - off);
+  else if (fill_mode == 2) {
+    uintptr_t a = (uintptr_t)p >> 4;
+    for (size_t i = off; i < end; i++) b[i] = (unsigned char)(a + i * 37 + 1);
+  }
+}
+
+static size_t klass(size_t size) {
+  size_t k = (size + 15) >> 4;
+  return k < NCLASS ? k : 0;        /* 0 = not recycled */
+}
+
 static void *alloc(size_t size, size_t align) {
   lock();
   init();
   n_alloc++;
   n_bytes += size;
   void *r;
-  if (mo_size && size == mo_size && align <= 16 && mo_skip-- > 0) {
+  size_t k = (recycle && align <= 16 && size) ? klass(size) : 0;
+  if (k && freelist[k]) {
+    char *p = freelist[k];
+    freelist[k] = *(char **)(p - HDR + 8);
+    *(size_t *)(p - HDR) = size;
+    n_recycled++;
+    r = p;
+  } else if (mo_size && size == mo_size && align <= 16 && mo_skip-- > 0) {
     n_sized++;
     r = take(size, align);
   } else if (mo_size && size == mo_size && align <= 16) {
@@ -141,29 +181,50 @@ static void *alloc(size_t size, size_t align) {
   return r;
 }
 
-void *malloc(size_t n) { return alloc(n, 16); }
-void free(void *p) { (void)p; }
+static void *alloc_filled(size_t n, size_t al) {
+  void *p = alloc(n, al);
+  if (p && fill_mode) fill(p, 0, n);
+  return p;
+}
+
+void *malloc(size_t n) { return alloc_filled(n, 16); }
+void free(void *ptr) {
+  char *p = ptr;
+  if (!p || !recycle || p < base || p >= base + ARENA) return;
+  lock();
+  size_t k = klass(*(size_t *)(p - HDR));
+  if (k && ((uintptr_t)p & 15) == 0) {
+    *(char **)(p - HDR + 8) = freelist[k];
+    freelist[k] = p;
+  }
+  unlock();
+}
 void *calloc(size_t a, size_t b) {
   size_t n;
   if (__builtin_mul_overflow(a, b, &n)) { errno = ENOMEM; return NULL; }
   void *p = alloc(n, 16);
-  /* fresh anonymous memory is zero, except inside permuted runs (also fresh): nothing to do */
+  /* fresh anonymous memory is zero; a recycled block is not */
+  if (p && recycle) memset(p, 0, n);
   return p;
 }
 void *realloc(void *old, size_t n) {
-  if (!old) return alloc(n, 16);
+  if (!old) return alloc_filled(n, 16);
   size_t osz = *(size_t *)((char *)old - HDR);
   if (n <= osz && n != 0) return old;
   void *p = alloc(n, 16);
-  if (p) memcpy(p, old, osz < n ? osz : n);
+  if (p) {
+    memcpy(p, old, osz < n ? osz : n);
+    if (fill_mode && n > osz) fill(p, osz, n);
+    free(old);
+  }
   return p;
 }
-void *memalign(size_t al, size_t n) { return alloc(n, al); }
-void *aligned_alloc(size_t al, size_t n) { return alloc(n, al); }
-void *valloc(size_t n) { return alloc(n, 4096); }
-void *pvalloc(size_t n) { return alloc((n + 4095) & ~(size_t)4095, 4096); }
+void *memalign(size_t al, size_t n) { return alloc_filled(n, al); }
+void *aligned_alloc(size_t al, size_t n) { return alloc_filled(n, al); }
+void *valloc(size_t n) { return alloc_filled(n, 4096); }
+void *pvalloc(size_t n) { return alloc_filled((n + 4095) & ~(size_t)4095, 4096); }
 int posix_memalign(void **out, size_t al, size_t n) {
-  void *p = alloc(n, al);
+  void *p = alloc_filled(n, al);
   if (!p) return ENOMEM;
   *out = p;
   return 0;
